@@ -81,6 +81,25 @@ def run(ctx):
     phrase = "test test test test test test test test test test test junk"
     key = pyref.bip32_derive(pyref.bip39_seed(phrase, ""), [0x8000002C, 0x8000003C, 0x80000000, 0, 0])
     ds = [rbytes(rng, 32) for _ in range(6)] + [b"\x00" * 32, b"\xff" * 32]
+    # every spelling ethdigest accepts denotes the same 32 bytes: 0x-prefixed or not, either case; digests whose hex digits are
+    # all decimal digits, or look like other radices, are still hex
+    special = [bytes.fromhex("%064d" % 10), bytes.fromhex("1234567890" * 6 + "1234"), bytes.fromhex("99" * 32), bytes.fromhex("0b" + "01" * 31),
+               bytes.fromhex("0e" + "00" * 30 + "05"), bytes.fromhex("00" * 31 + "08")]
+    sp_runs, sp_meta = [], []
+    for d in special + ds[:3]:
+        if int.from_bytes(d, "big") >= N:
+            continue
+        for text in (d.hex(), "0x" + d.hex(), d.hex().upper(), "0x" + d.hex().upper()):
+            sp_runs.append(dict(args=["sign", "--mnemonic", phrase, "raw", text]))
+            sp_meta.append((d, text))
+    for (d, text), r in zip(sp_meta, ctx.cli(sp_runs)):
+        ctx.count("cli/sign-raw/spelling")
+        ctx.distinct(("rawspell", text))
+        rr, ss, p = pyref.ecdsa_sign_rfc6979(key, d)
+        if r.cls == "ok" and r.stdout.decode().strip() != "0x%064x%064x%02x" % (rr, ss, 27 + p):
+            ctx.violation("cli-sign-raw-spelling", dict(digest_text=text), "signature over the 32 bytes %s (or a refusal)" % d.hex(), r.stdout.decode().strip())
+        if r.cls in ("panic", "signal", "timeout"):
+            ctx.violation("cli-sign-raw-spelling", dict(digest_text=text), "result or error", str(r)[:200])
     res = ctx.cli([dict(args=["sign", "--mnemonic", phrase, "raw", "0x" + d.hex()]) for d in ds])
     for d, r in zip(ds, res):
         ctx.count("cli/sign-raw")
